@@ -30,6 +30,12 @@ PSYM = _PSYM3 + ("spare",)
 PVAL = dict(_PVAL3, spare=3.25)
 
 INIT_OPTS = {"positive_init_speed": True, "positive_init_density": True, "positive_init_queue": True}
+NEXT_OPTS = {"positive_next_speed": True, "positive_next_density": True, "positive_next_queue": True}
+
+
+def opts_of(o):
+    """variant flag -> options: 0/False none, 1/True positivity of the initial values, 2 positivity of the next values"""
+    return {} if not o else (NEXT_OPTS if o == 2 else INIT_OPTS)
 
 
 def orders(spec: NetSpec):
@@ -48,6 +54,7 @@ def variant_sets(tier):
     full += [("MX", c, True, True, False, 0) for c in (0, 1, 2)]
     full += [("SX", c, True, False, True, 0) for c in (0, 1, 2)] + [("MX", 0, False, False, True, 0), ("MX", 2, True, True, True, 0)]
     full += [("SX", -1, True, False, False, 0), ("SX", 3, True, True, False, 0), ("MX", 7, False, False, False, 0)]
+    full += [("SX", 0, False, False, 2, 0), ("SX", 2, True, False, 2, 0), ("MX", 1, False, False, 2, 0)]  # positive_next_* on
     full += [("SX", c, False, False, False, 1) for c in (0, 1, 2)] + [("MX", 0, True, False, False, 1), ("SX", 2, True, False, True, 1),
                                                                         ("SX", 0, False, False, False, 2), ("MX", 2, True, False, False, 2)]
     reduced = [("SX", 1, True, False, False, 0), ("SX", 2, True, True, False, 0), ("MX", 2, False, False, False, 0),
@@ -56,6 +63,7 @@ def variant_sets(tier):
         full = [(s, c, m, p, o, 0) for s in ("SX", "MX") for c in (0, 1, 2) for m in (False, True) for p in (False, True)
                 for o in (False, True)]
         full += [(s, c, m, False, False, 0) for s in ("SX", "MX") for c in (-3, -1, 3, 7) for m in (False, True)]
+        full += [(s, c, m, False, 2, 0) for s in ("SX", "MX") for c in (0, 1, 2) for m in (False, True)]
         full += [(s, c, m, False, o, h) for s in ("SX", "MX") for c in (0, 1, 2) for m in (False, True) for o in (False, True)
                  for h in (1, 2)]
         reduced = [(s, c, True, p, o, 0) for s in ("SX", "MX") for c in (0, 1, 2) for p in (False, True) for o in (False, True)]
@@ -86,7 +94,7 @@ def compile_variant(spec, order, sym, compact, more_out, symbolic, opts, P, hist
         syms = {p: XX.sym(p) for p in PSYM}
         override = {(f"L{i}", p): syms[p] for i in range(len(spec.links)) for p in _PSYM3}
     built = build(spec, order=order, override=override)
-    o = INIT_OPTS if opts else {}
+    o = opts_of(opts)
     if hist in (0, 1):
         built.net.step(engine=eng, **P, **o)
     if hist in (1, 2):
@@ -109,12 +117,12 @@ def observed_var_order(built):
 
 def two_numpy_steps(sp, order, val, P, opts):
     b = build(sp, order=order)
-    n1, _, _ = np_step(sp, val, P, opts=(INIT_OPTS if opts else None), built=b)
+    n1, _, _ = np_step(sp, val, P, opts=opts_of(opts), built=b)
     val2 = dict(val)
     for k, v in n1.items():
         val2[k] = list(v)
     b2 = build(sp, order=order)
-    n2, _, _ = np_step(sp, val2, P, opts=(INIT_OPTS if opts else None), built=b2)
+    n2, _, _ = np_step(sp, val2, P, opts=opts_of(opts), built=b2)
     return n1, n2
 
 
@@ -257,7 +265,7 @@ def plans(tier, seed):
         specs0 = [(lab, s) for _, lab, s in all_specs(3, 3, 0, pal)]
         core = [("SX", 0, True, False, False, 0), ("SX", 1, True, True, False, 0), ("SX", 2, True, False, False, 0),
                 ("MX", 2, False, True, False, 0), ("SX", 1, False, False, True, 0), ("SX", 0, False, False, False, 1),
-                ("MX", 1, True, False, False, 1), ("SX", 3, False, False, False, 0)]
+                ("MX", 1, True, False, False, 1), ("SX", 3, False, False, False, 0), ("SX", 2, False, False, 2, 0)]
         jobs = [({"pset": 0, "d": 0, "variants": (core, core[1:3])}, specs1),
                 ({"pset": 0, "d": 0, "variants": variant_sets("quick")},
                  specs0 + [(f"harness:{k}", s) for k, s in harness_specs(pal).items()])]
